@@ -115,7 +115,7 @@ end
 def CandOK (ce : CEnv) (c : Cand) : Prop :=
   (∃ k : Nat, c.2 = some k ∧ c.1.index = (k : Int)) ∨
   (c.2 = none ∧ (c.1.index = -1 ∨
-    ∃ a vals, getEnum ce.views ce.fuel ce.self a = .ok (some vals, c.1.index)))
+    ∃ a vals, getEnum ce.views ce.fuel [] ce.self a = .ok (some vals, c.1.index)))
 
 theorem enumCands_mem {vals : List Bytes} {x : Bytes} {mk c : Cand} (h : c ∈ enumCands vals x mk) : c = mk := by
   unfold enumCands at h
@@ -156,7 +156,7 @@ theorem incEnumCands_ok (ce : CEnv) (views : Nat → Option FileView) (fuel : Na
     simp only [incEnumCands] at h
     by_cases hp : inc.pfx = a
     · rw [if_pos hp] at h
-      cases hg : getEnum views fuel inc.target e with
+      cases hg : getEnum views fuel [] inc.target e with
       | error err => rw [hg] at h; simp at h
       | ok res =>
         obtain ⟨en, idx⟩ := res
@@ -202,7 +202,7 @@ theorem altCands_ok (ce : CEnv) (ss : List Bytes) (cs : List Cand) (h : altCands
     · simp only [Except.ok.injEq] at h
       subst h; simp at hc
   · next a v =>
-    cases hg : getEnum ce.views ce.fuel ce.self a with
+    cases hg : getEnum ce.views ce.fuel [] ce.self a with
     | error err => rw [hg] at h; simp at h
     | ok res =>
       obtain ⟨en, idx⟩ := res
@@ -271,11 +271,12 @@ theorem resolveIdent_spec {ce : CEnv} {id : Bytes} {o : Out (Option Extra)} (h :
       | _ :: _ :: _, h => simp at h
 
 /-- getEnum's include index is -1 or the Reference index of the root of a typedef of the same AST. -/
-theorem getEnum_idx (views : Nat → Option FileView) : ∀ (fuel j : Nat) (name : Bytes) (vals : List Bytes) (idx : Int),
-    getEnum views fuel j name = .ok (some vals, idx) →
+theorem getEnum_idx (views : Nat → Option FileView) : ∀ (fuel : Nat) (seen : List (Nat × Bytes)) (j : Nat)
+    (name : Bytes) (vals : List Bytes) (idx : Int),
+    getEnum views fuel seen j name = .ok (some vals, idx) →
     idx = -1 ∨ ∃ v a root r, views j = some v ∧ v.typedef a = some root ∧ root.ref = some r ∧ idx = (r.index : Int)
-  | 0, j, name, vals, idx => by simp [getEnum]
-  | fuel + 1, j, name, vals, idx => by
+  | 0, seen, j, name, vals, idx => by simp [getEnum]
+  | fuel + 1, seen, j, name, vals, idx => by
     intro h
     simp only [getEnum] at h
     cases hv : views j with
@@ -306,40 +307,34 @@ theorem getEnum_idx (views : Nat → Option FileView) : ∀ (fuel j : Nat) (name
             | some td =>
               rw [ht] at h
               simp only at h
-              have rec_case : getEnum views fuel j td.rootName = .ok (some vals, idx) →
-                  idx = -1 ∨ ∃ v a root r, views j = some v ∧ v.typedef a = some root ∧ root.ref = some r ∧
-                    idx = (r.index : Int) := by
-                intro hr
-                rcases getEnum_idx views fuel j td.rootName vals idx hr with h1 | ⟨v', a, root, r, q1, q2, q3, q4⟩
-                · exact Or.inl h1
-                · exact Or.inr ⟨v', a, root, r, q1, q2, q3, q4⟩
-              cases hr : td.ref with
-              | none =>
-                rw [hr] at h
-                have := rec_case h
-                rw [hv] at this
-                exact this
-              | some r =>
-                rw [hr] at h
-                simp only at h
-                cases hi : v.incs[r.index]? with
-                | none => rw [hi] at h; simp at h
-                | some tgt =>
-                  rw [hi] at h
+              by_cases hseen : (j, name) ∈ seen
+              · rw [if_pos hseen] at h
+                simp only [Except.ok.injEq, Prod.mk.injEq, reduceCtorEq, false_and] at h
+              · rw [if_neg hseen] at h
+                cases hr : td.ref with
+                | none =>
+                  rw [hr] at h
+                  have := getEnum_idx views fuel _ j td.rootName vals idx h
+                  rw [hv] at this
+                  exact this
+                | some r =>
+                  rw [hr] at h
                   simp only at h
-                  cases hs : getEnum views fuel tgt r.name with
-                  | error e => rw [hs] at h; simp at h
-                  | ok res =>
-                    obtain ⟨en, i2⟩ := res
-                    rw [hs] at h
-                    cases en with
-                    | none =>
-                      have := rec_case h
-                      rw [hv] at this
-                      exact this
-                    | some vs =>
-                      simp only [Except.ok.injEq, Prod.mk.injEq] at h
-                      exact Or.inr ⟨v, name, td, r, rfl, ht, hr, h.2.symm⟩
+                  cases hi : v.incs[r.index]? with
+                  | none => rw [hi] at h; simp at h
+                  | some tgt =>
+                    rw [hi] at h
+                    simp only at h
+                    cases hs : getEnum views fuel ((j, name) :: seen) tgt r.name with
+                    | error e => rw [hs] at h; simp at h
+                    | ok res =>
+                      obtain ⟨en, i2⟩ := res
+                      rw [hs] at h
+                      cases en with
+                      | none => simp only [Except.ok.injEq, Prod.mk.injEq, reduceCtorEq, false_and] at h
+                      | some vs =>
+                        simp only [Except.ok.injEq, Prod.mk.injEq] at h
+                        exact Or.inr ⟨v, name, td, r, rfl, ht, hr, h.2.symm⟩
           · rw [if_neg hct] at h
             simp only [Except.ok.injEq, Prod.mk.injEq, reduceCtorEq, false_and] at h
 
